@@ -309,6 +309,7 @@ func c02SchemeStream(w *c02World, st *c02Streams) {
 	}
 	for vi := range w.vers {
 		base := w.vers[vi].bases["00"]
+		w.selfVi = vi
 		for _, ns := range specs {
 			if ns.spec.absent {
 				continue
@@ -324,7 +325,7 @@ func c02SchemeStream(w *c02World, st *c02Streams) {
 			if o == "panic" {
 				continue
 			}
-			w.v.Case(st.sv, fmt.Sprintf("(%s,%s,%s,%s,%s)", w.sch, w.membersTerm(), c02Raw(sg.term), mB1.term(), gBool(o == "ok")),
+			w.v.Case(st.sv, fmt.Sprintf("(%s,%s,%s,%s,%s)", w.sch, w.usableTerm(), c02Raw(sg.term), mB1.term(), gBool(o == "ok")),
 				map[string]any{"call": "Verify", "scheme": w.scheme, "n": w.n, "mutation": ns.name, "signature": sg.term, "verifier": w.vers[vi].id, "observed": o})
 		}
 	}
